@@ -811,6 +811,41 @@ def stage_primitive_leaves(ctx: Ctx):
                               'a primitive leaf of a pattern matches a different value (or rejects the same one)', {'pattern_value': repr(p), 'target_src': src, 'expected_match': want, 'wrong': bad})
 
 
+    # the `kind` leaf of a string constant (None / 'u'): a plain Constant pattern and the AST of a u-string differ in that one leaf
+    from fst.match import MList, MQSTAR, MTAG
+    for psrc, tsrc in [("'a'", "u'a'"), ("u'a'", "'a'"), ("u'a'", "u'a'"), ("'a'", "'a'"), ("[u'a', 'a']", "['a', 'a']"), ("f(k='a')", "f(k=u'a')")]:
+        root = fst.FST(f'x = {tsrc}', 'exec')
+        tgt = root.body[0].value
+        pat = ast.parse(psrc, mode='eval').body
+        want = ast.dump(pat) == ast.dump(ast.parse(tsrc, mode='eval').body)
+        got = {}
+        try:
+            got['ast/fst'] = tgt.match(pat) is not None
+            got['ast/ast'] = fst.FST(pat, 'expr').match(ast.parse(tsrc, mode='eval').body) is not None if False else (fst.match.M(p=pat).match(ast.parse(tsrc, mode='eval').body) is not None)
+            got['search'] = any(m.matched is tgt for m in root.search(pat))
+        except Exception as e:
+            ctx.violation(f'kind-leaf-raise|{type(e).__name__}', 'matching a string constant pattern raised', {'pattern_src': psrc, 'target_src': tsrc, 'error': repr(e)[:200]})
+            continue
+        ctx.tick(('kind-leaf', psrc, tsrc), 'prim-leaf:kind')
+        bad = sorted(k for k, v in got.items() if v != want)
+        if bad:
+            ctx.violation(f'prim-leaf|kind|{"matches-different" if not want else "rejects-same"}', 'a string constant pattern matches a constant that differs in the `kind` leaf (or rejects the same one)',
+                          {'pattern_src': psrc, 'target_src': tsrc, 'expected_match': want, 'wrong': bad})
+        tm_terms.append(f'Bool.eqb (tmatch (of_tree {enc_tree(pat)}) {enc_tree(tgt.a)}) {"true" if got["ast/fst"] else "false"}')
+        tm_meta.append({'pattern_src': psrc, 'target_src': tsrc, 'real_match': got['ast/fst']})
+    # a back-reference to a captured plain string does not accept the u-string
+    for tsrc, want in [("['a', u'a']", False), ("[u'a', 'a']", False), ("['a', 'a']", True), ("[u'a', u'a']", True)]:
+        tgt = fst.FST(f'x = {tsrc}', 'exec').body[0].value
+        try:
+            got1 = tgt.match(MList(elts=[M(x=...), MTAG('x')])) is not None
+            got2 = MList(elts=[M(x=...), MTAG('x')]).match(ast.parse(tsrc, mode='eval').body) is not None
+        except Exception as e:
+            ctx.violation(f'kind-leaf-raise|{type(e).__name__}', 'matching a back-reference raised', {'target_src': tsrc, 'error': repr(e)[:200]})
+            continue
+        ctx.tick(('kind-backref', tsrc), 'prim-leaf:kind-backref')
+        if (got1, got2) != (want, want):
+            ctx.violation('prim-leaf|kind|back-reference', 'a back-reference to a captured string constant accepts one that differs in the `kind` leaf (or rejects the same one)',
+                          {'target_src': tsrc, 'expected_match': want, 'formatted_tree': got1, 'pure_ast': got2})
     try:
         failed = coq_eval_bools('C17_treematch_prim', TM_HDR, tm_terms, shard=200)
         ctx.correspondence('models/TreeMatch.v tmatch == FST.match(Constant(value=p)) on every pair of primitive leaves (None, falsy and truthy values of every constant type, `...` as the wildcard)', len(tm_terms), [tm_meta[k] for k in failed])
